@@ -34,6 +34,7 @@ ToKey(t) ==
     [] t.s \in {"char", "str"} -> Ok(VStr(t.cp))
     [] t.s = "unit_variant" -> Ok(VStr(t.variant))
     [] t.s = "some" -> ToKey(t.x)
+    [] t.s = "hr" -> ToKey(t.x)                      \* the conversion is a human-readable format, as serde_json is: the textual form
     [] t.s = "newtype_struct" -> ToKey(t.x)
     [] OTHER -> SerErr                               \* floats, bytes, none, unit, sequences, maps, structs, data-carrying variants
 
@@ -71,6 +72,7 @@ ToValue(t) ==
     [] t.s = "bytes" -> Ok(VBytes(t.b))
     [] t.s \in {"none", "unit", "unit_struct"} -> Ok(VNull)
     [] t.s = "some" -> ToValue(t.x)
+    [] t.s = "hr" -> ToValue(t.x)                    \* a type that asks is_human_readable(): the answer is that of serde_json (true), or the square would not commute
     [] t.s = "unit_variant" -> Ok(VStr(t.variant))
     [] t.s = "newtype_struct" ->
          IF t.name = DurationMarker THEN (LET d == DurationOf(t.x) IN IF d.ok THEN [ok |-> TRUE, v |-> d.v, dev |-> d.dev] ELSE SerErr)
@@ -90,7 +92,7 @@ ToValue(t) ==
 RECURSIVE UsesMarker(_)
 UsesMarker(t) ==
   CASE t.s = "newtype_struct" -> t.name \in {DurationMarker, TimestampMarker} \/ UsesMarker(t.x)
-    [] t.s \in {"some", "newtype_variant"} -> UsesMarker(t.x)
+    [] t.s \in {"some", "newtype_variant", "hr"} -> UsesMarker(t.x)
     [] t.s \in {"seq", "tuple", "tuple_struct", "tuple_variant"} -> \E i \in 1..Len(t.e) : UsesMarker(t.e[i])
     [] t.s \in {"map", "mapbad"} -> \E i \in 1..Len(t.e) : UsesMarker(t.e[i][1]) \/ UsesMarker(t.e[i][2])
     [] t.s \in {"struct", "struct_variant"} -> \E i \in 1..Len(t.f) : UsesMarker(t.f[i][2])
@@ -101,7 +103,7 @@ UsesMarker(t) ==
 RECURSIVE JsonRepresentable(_)
 JsonRepresentable(t) ==
   CASE t.s \in {"bytes", "f32"} -> FALSE
-    [] t.s \in {"some", "newtype_struct", "newtype_variant"} -> JsonRepresentable(t.x)
+    [] t.s \in {"some", "newtype_struct", "newtype_variant", "hr"} -> JsonRepresentable(t.x)
     [] t.s \in {"seq", "tuple", "tuple_struct", "tuple_variant"} -> \A i \in 1..Len(t.e) : JsonRepresentable(t.e[i])
     [] t.s \in {"map", "mapbad"} -> \A i \in 1..Len(t.e) : JsonRepresentable(t.e[i][1]) /\ JsonRepresentable(t.e[i][2])
     [] t.s \in {"struct", "struct_variant"} -> \A i \in 1..Len(t.f) : JsonRepresentable(t.f[i][2])
